@@ -1752,7 +1752,7 @@ func (e *clientEngine) Setup(r *Run) {
 	case "C11":
 		e.bigPct = []int{10, 30, 60}[r.Choose(3, "bigpct11")]
 	case "C10":
-		if r.Pct(6, "burst") {
+		if r.Pct(3, "burst") {
 			// a burst of unanswered requests that all expire before one collection
 			e.burst = true
 			e.nCallers = 2 + r.Choose(3, "ncallers-b")
@@ -1934,11 +1934,11 @@ func (e *clientEngine) earliestDeadline() (time.Time, bool) {
 func (e *clientEngine) Env() []EnvEvent {
 	r := e.r
 	var ev []EnvEvent
-	if e.phase == phSetup || e.phase >= phClose {
-		// network still delivers during close phases
-		if e.phase == phSetup {
+	if e.phase == phSetup {
+		if e.client == nil || r.Sim.Tasks[0].State != verifrt.Done {
 			return nil
 		}
+		e.spawnCallers()
 	}
 	chaos := e.phase == phChaos
 	// network: deliver / drop / duplicate / corrupt pending datagrams
@@ -2058,6 +2058,20 @@ func (e *clientEngine) Check() *Violation {
 	return nil
 }
 
+// spawnCallers starts the caller tasks as soon as NewClient has returned: they
+// race with the goroutines NewClient started (the reader may not have run yet).
+func (e *clientEngine) spawnCallers() {
+	if e.phase != phSetup || e.client == nil {
+		return
+	}
+	r := e.r
+	e.phase = phChaos
+	setup := r.Sim.Tasks[0]
+	for i := 0; i < e.nCallers; i++ {
+		e.callers = append(e.callers, r.Sim.Spawn(fmt.Sprintf("C%d", i), e.callerScript(i), setup))
+	}
+}
+
 func (e *clientEngine) Quiescent() bool {
 	r := e.r
 	switch e.phase {
@@ -2065,11 +2079,7 @@ func (e *clientEngine) Quiescent() bool {
 		if e.client == nil {
 			return false
 		}
-		e.phase = phChaos
-		setup := r.Sim.Tasks[0]
-		for i := 0; i < e.nCallers; i++ {
-			e.callers = append(e.callers, r.Sim.Spawn(fmt.Sprintf("C%d", i), e.callerScript(i), setup))
-		}
+		e.spawnCallers()
 		return true
 	case phChaos:
 		e.phase = phHeal
